@@ -26,7 +26,7 @@ def run(ctx):
     if res.get('actions', {}).get('uncaptured'):
         from tools.check import MachineryError
         raise MachineryError('relayed tunnel could not be established in the scenario: %s' % str(res.get('extra'))[:1500])
-    ctx.require_actions('alter:none', 'alter:flipbit', 'flip:header', 'alter:splice', 'alter:replayed', 'alter:newcounter', 'retype:80', 'retype:64', 'retype:96',
+    ctx.require_actions('alter:none', 'alter:flipbit', 'flip:header', 'alter:splice', 'alter:replayed', 'alter:newcounter', 'alter:recverr_self', 'alter:recverr_third', 'retype:80', 'retype:64', 'retype:96',
                         'claim:other', 'claim:own')
 
 
